@@ -259,9 +259,9 @@ cdef class cyQM_template(cyQMBase):
         else:
             raise RuntimeError("unknown vartype")
 
-        self.cppqm.add_variable(cppvartype, lb, ub)
+        self.variables._append(label)  # first: an unusable label must raise before the model grows
 
-        self.variables._append(label)
+        self.cppqm.add_variable(cppvartype, lb, ub)
 
         assert self.cppqm.num_variables() == self.variables.size()
 
